@@ -16,7 +16,7 @@ RULE = (
     "before/after/between inner loops; scf.if regions (condition on an induction variable) around ops and loops; in 15% of the programs a one-element counter buffer that is incremented through a view of it and read directly, the value read going to an effect op; allocs, memref.dim, subviews and affine.min sizes depending or not on induction variables) compiled with "
     "pipeline-canonicalize-for, reuse-memref-allocs, or both; original and transformed function are executed under K environments (runtime "
     "bounds, argument shapes) and the traces of (op tag, evaluated index operands, allocation site + offsets + sizes of memref operands) must be "
-    "identical; buffers that are freed again in the body they are allocated in (half of a third of the programs): (also in both branches of a conditional, also through a memref.cast) and buffer-rotation loops (the loop carries the previous buffer, allocates a new one, frees the old one): no double free, no use after a free. Degenerate use of the simulator: one core, no schedule, no fault. non-trivial = the pass changed the IR and >= 1 effect op ran; "
+    "identical; buffers that are freed again in the body they are allocated in (half of a third of the programs): (also in both branches of a conditional, also through a memref.cast) and buffer-rotation loops (the loop carries the previous buffer, allocates a new one - always, only in some iterations through an scf.if, or handed on through a memref.cast - and frees the old one): no double free, no use after a free. Degenerate use of the simulator: one core, no schedule, no fault. non-trivial = the pass changed the IR and >= 1 effect op ran; "
     "distinct = hash of (program, environments)."
 )
 PIPES = ["pipeline-canonicalize-for", "reuse-memref-allocs", "pipeline-canonicalize-for,reuse-memref-allocs", "reuse-memref-allocs,pipeline-canonicalize-for"]
